@@ -10,7 +10,9 @@ registered check(s) against it.
 """
 import json, os, re, shutil, subprocess, sys, time
 pid = sys.argv[1]; checks = sys.argv[2:] or [pid]
-src = f"/tmp/seed-{pid}"; wt = f"/tmp/seedchk-{pid}"
+wave = os.environ.get("SEED_WAVE", "1")  # later waves: worktree /tmp/seed<w>-<ID>, stored as seeded/<ID>.<w>/
+sfx = "" if wave == "1" else wave
+src = f"/tmp/seed{sfx}-{pid}"; wt = f"/tmp/seedchk{sfx}-{pid}"
 meta = json.load(open(os.path.join(src, "SEED_meta.json")))
 if isinstance(meta, list): meta = meta[0]
 env = dict(os.environ, PKG_CONFIG_PATH="/verif/stub/pkgconfig", GOTOOLCHAIN="local", GOFLAGS="-mod=mod", GOPROXY="off", GOSUMDB="off")
@@ -56,7 +58,7 @@ if cmd:
     result["demo_passes_without_patch"] = rc2 == 0
     result["demo_tail_with_patch"] = o1[-400:]
     if rc2 != 0: result["demo_tail_without_patch"] = o2[-400:]
-dst = f"/verif/seeded/{pid}"; os.makedirs(dst, exist_ok=True)
+dst = f"/verif/seeded/{pid}" + ("" if wave == "1" else "." + wave); os.makedirs(dst, exist_ok=True)
 shutil.copy(patch, os.path.join(dst, "patch.diff"))
 for f in demos:
     shutil.copy(os.path.join(src, f), os.path.join(dst, os.path.basename(f)))
